@@ -279,6 +279,55 @@ def sync_commit(ck, P, R="ORDER/sync-commit"):
               "the stream verifies afterwards" % sorted({b[0] for b in bad}), where(fn, bad[0][1] if bad else None))
 
 
+def wrap_constants(ck, P, R="ATOM/wrap-check-bit"):
+    """`wrap` carries the wrapper kind in its low bits and "verify the check value" in bit 2.  Verification is on by default:
+    wherever the initialisation functions store a *constant* into wrap - directly, or a local all of whose definitions are
+    constants (a lookup table) - the constant is 0 (raw) or has bit 2 set.  (inflateValidate and inflateSync, which clear the
+    bit on purpose, are not initialisation.)"""
+    n = 0
+    for path in (Z + "inflate::reset_with_config", Z + "inflate::init", Z + "inflate::reset", Z + "inflate::reset_keep"):
+        f = P.fn(path)
+        if f is None:
+            continue
+        for bi, fp, root, rv, st in f.field_writes():
+            if not fp or str(fp[-1]) != "wrap" or bi not in f.live:
+                continue
+            n += 1
+            def values(loc, depth=0):
+                """the set of constants a local can hold if every definition is a constant or a copy of such a local"""
+                out = set()
+                defs = [d for d in f.defs.get(loc, []) if d[0] in f.live]
+                if not defs or depth > 4:
+                    return None
+                for dbi, dsi, drv in defs:
+                    if drv is None:
+                        return None
+                    if drv.get("k") in ("use", "cast"):
+                        a_ = drv.get("a") or {}
+                        if a_.get("k") == "const" and isinstance(a_.get("val"), int):
+                            out.add(a_["val"])
+                            continue
+                        if set(a_) <= {"l", "k"}:
+                            sub = values(a_["l"], depth + 1)
+                            if sub is None:
+                                return None
+                            out |= sub
+                            continue
+                    return None
+                return out
+            vals = set()
+            e = mir.strip_casts(rv) if isinstance(rv, tuple) else None
+            if e is not None and e[0] == "c" and isinstance(e[1], int):
+                vals.add(e[1])
+            elif e is not None and e[0] == "v":
+                vals = values(e[1]) or set()
+            bad = sorted(x for x in vals if x != 0 and not (x & 4))
+            ck.decide(not bad, R, "%s:wrap" % path.replace(Z, ""), "constants stored into wrap are 0 or carry the check bit",
+                      "%s stores the constant(s) %s into wrap: a wrapper kind without bit 2 - streams opened that way are never verified "
+                      "against their trailer" % (path.replace(Z, ""), bad), where(f))
+    ck.floor(R, n, 1)
+
+
 def wrap_who(ck, P):
     R = "WHO/wrap-bit2"
     allowed = {Z + "inflate::validate": "documented opt-out (inflateValidate)", Z + "inflate::sync": "no point in checking after a resync (zlib)",
@@ -350,6 +399,7 @@ def run(ck):
     _g.crc_fold_start(ck, P)
     extend_siblings(ck, P)
     wrap_who(ck, P)
+    wrap_constants(ck, P)
     sync_commit(ck, P)
     checksum_update_guard(ck, P)
     # the trailer arms hand over to Done/Bad only after their last input request
